@@ -9,7 +9,7 @@
     generated coefficients, the Taylor coefficients of the linear multiplier, the
     reductions, A-stability for all z, the length validations. *)
 From Dino Require Import Base.Ops Base.Sums Base.Inst Gen.Tableaux Model.Integrators
-  Thm.Integrators Thm.IntegratorsStab.
+  Thm.Integrators Thm.IntegratorsStab Thm.IntegratorsArk Thm.IntegratorsSil3.
 From Coq Require Import Reals Qreals Qabs Lra.
 
 (** the translator understood every construct it had to read (fail-closed switch) *)
@@ -141,21 +141,67 @@ Section ImexIsArk.
   Proof. exact (imex_is_ark nz_false_zero vadd_0_r vscal_0_l Fx G Ginv dt a_ex a_im b_ex b_im y0). Qed.
 End ImexIsArk.
 
-(** PARTIAL (linear test equation only): in the series algebra the directly coded
-    and the low-storage step functions coincide, coefficient by coefficient up to
-    x^5 y^5, with [ark_step] on the Butcher forms used in the order conditions above
-    ([euler_tab], [rk2_tab], [lowstorage_to_butcher] of the generated lists), and the
-    interpreter on the generated SIL3 tableau with [ark_step].
-    Missing for the full statement: the same identity for arbitrary F and linear G
-    with G_inv = (1 - eta G)^-1 in an arbitrary module (needs induction over the 2N
-    recurrence); it is tested on the implementation by the runner ls_vs_ark. *)
-Theorem C06_stepfn_is_ark_linear_series_partial :
-  ser_eqb (ser_ark euler_tab) ser_euler = true /\
-  ser_eqb (ser_ark rk2_tab) ser_rk2 = true /\
-  ser_eqb (ser_ark rk3_tab) ser_rk3 = true /\
-  ser_eqb (ser_ark rk4_tab) ser_rk4 = true /\
-  ser_eqb (ser_ark sil3_tab) (some_ser ser_sil3) = true.
-Proof. exact stepfn_is_ark_linear_series. Qed.
+(** ** The step functions are additive Runge-Kutta steps in Butcher form.
+    Any field of scalars, any module over it, ARBITRARY (nonlinear) F and G; the only
+    hypothesis on G_inv is that y = G_inv(x, eta) solves y = x + eta G(y), i.e.
+    (1 - eta G) y = x (linearity of G is not even needed).  The low-storage 2N +
+    Crank-Nicolson step equals [ark_step] with the Butcher arrays of
+    [lowstorage_to_butcher] for EVERY coefficient list (all lengths, by induction over
+    the stage loop with the invariant  h_k = sum_j hc_kj F(Y_j),
+    u_k = y0 + dt sum_j ue_kj F(Y_j) + dt sum_j ui_kj G(Y_j));  the two directly coded
+    schemes equal [ark_step] on their hand-derived tableaux.  These are exactly the
+    tableaux whose order conditions are decided above. *)
+Section StepFunctionsAreArk.
+  Context {F : Type} {o : Ops F} {Fc : FieldC o} {V : Type} {vo : VOps F V} {Mc : ModuleC o vo}.
+  Variable Fx G : V -> V.
+  Variable Ginv : V -> F -> V.
+  Hypothesis Ginv_solves : forall x eta, Ginv x eta = vadd x (vscal eta (G (Ginv x eta))).
+
+  Theorem C06_lowstorage_is_ark dt y0 (al be ga : list F) :
+    ls_step Fx G Ginv dt al be ga y0 =
+    (let '(ae, ai, bex, bim) := lowstorage_to_butcher al be ga in
+     ark_step Fx G Ginv dt ae ai bex bim y0).
+  Proof. exact (lowstorage_is_ark Fx G Ginv Ginv_solves dt y0 al be ga). Qed.
+
+  Theorem C06_direct_schemes_are_ark dt y0 :
+    euler_step Fx Ginv dt y0 =
+      (let '(ae, ai, bex, bim) := @euler_tableau F o in ark_step Fx G Ginv dt ae ai bex bim y0) /\
+    cn_rk2_step Fx G Ginv dt y0 =
+      (let '(ae, ai, bex, bim) := @cn_rk2_tableau F o in ark_step Fx G Ginv dt ae ai bex bim y0).
+  Proof.
+    split; [exact (euler_is_ark Fx G Ginv Ginv_solves dt y0)|exact (cn_rk2_is_ark Fx G Ginv Ginv_solves dt y0)].
+  Qed.
+End StepFunctionsAreArk.
+
+(** ** Reduction of the imex_runge_kutta interpreter: with G = 0, G_inv = id it is the
+    classical explicit Runge-Kutta step (a_ex, b_ex); with F = 0 the diagonally
+    implicit Runge-Kutta step (a_im, b_im).  Every tableau with as many a_ex as a_im
+    rows (guaranteed by the validation), every F / G / G_inv. *)
+Section ImexReduces.
+  Context {F : Type} {o : Ops F} {V : Type} {vo : VOps F V}.
+  Hypothesis nz_false_zero : forall c : F, nz c = false -> c = f0.
+  Hypothesis vadd_0_r : forall x : V, vadd x vzero = x.
+  Hypothesis vscal_0_l : forall x : V, vscal f0 x = vzero.
+  Hypothesis vscal_0_r : forall c : F, vscal c (vzero : V) = vzero.
+
+  Theorem C06_imex_reduces_to_explicit (Fx : V -> V) dt a_ex a_im b_ex b_im y0 :
+    length a_ex = length a_im ->
+    imex_step Fx (fun _ => vzero) (fun x _ => x) dt a_ex a_im b_ex b_im y0
+    = Some (erk_step Fx dt a_ex b_ex y0).
+  Proof.
+    intros Hl. rewrite (imex_is_ark nz_false_zero vadd_0_r vscal_0_l). f_equal.
+    exact (ark_reduces_to_explicit vadd_0_r vscal_0_r Fx dt y0 a_ex a_im b_ex b_im Hl).
+  Qed.
+
+  Theorem C06_imex_reduces_to_implicit (G : V -> V) (Ginv : V -> F -> V) dt a_ex a_im b_ex b_im y0 :
+    length a_ex = length a_im ->
+    imex_step (fun _ => vzero) G Ginv dt a_ex a_im b_ex b_im y0
+    = Some (dirk_step G Ginv dt a_im b_im y0).
+  Proof.
+    intros Hl. rewrite (imex_is_ark nz_false_zero vadd_0_r vscal_0_l). f_equal.
+    exact (ark_reduces_to_implicit vadd_0_r vscal_0_r G Ginv dt y0 a_ex a_im b_ex b_im Hl).
+  Qed.
+End ImexReduces.
 
 (** ** A-stability over the reals: u' = z u treated implicitly (F = 0, G = z.,
     G_inv(., eta) = (1 - eta z)^-1 .), complex numbers as pairs, |.|^2 = nsq.
@@ -201,15 +247,18 @@ Theorem C06_A_stable_leapfrog_default (z prev cur : Cplx) (dt : R) :
               (prev, cur))) <= nsq prev.
 Proof. intros. apply A_stable_leapfrog; auto. exact leapfrog_default_alpha_ok. Qed.
 
-(* NOT PROVED (kept visible):
-   C06_A_stable_sil3 : forall z u dt, 0 <= dt -> fst z <= 0 ->
-     nsq (imex_step F0 (Gz z) (Ginvz z) dt (sil3 tableau) u) <= nsq u
-   (certificate |D|^2 - |N|^2 >= 0 with N = 5z+12, D = (z-3)(z-4));
-   C06_lowstorage_is_ark : ls_step = ark_step (lowstorage_to_butcher ...) for arbitrary F,
-     linear G with exact G_inv (only the linear series case is proved, see above).
-   Both are covered dynamically only: stability oracle on the implementation over a
-   grid of the closed left half-plane; extracted ark_step / ls_step vs the
-   implementation (runner ls_vs_ark). *)
+(** SIL3: through the zero-skipping interpreter on the GENERATED tableau.  The
+    implicit stability function is derived in Coq from the generated a_im, b_im
+    (r(0,w) = (12 + 5 w)/((w - 3)(w - 4)), w = dt z, by the field tactic on C), and
+    |D|^2 - |N|^2 = t^4 + 14 t^3 + 48 t^2 + 288 t + 2 t^2 s + 14 t s + s^2
+    (t = - Re w >= 0, s = (Im w)^2) has only non-negative coefficients.  A changed
+    generated coefficient makes the derivation, hence the check, fail. *)
+Theorem C06_A_stable_sil3 (z u : Cplx) (dt : R) :
+  0 <= dt -> fst z <= 0 ->
+  exists y, imex_step (o := ROps) (vo := CVOps) F0 (Gz z) (Ginvz z) dt
+              (RLL sil3_a_ex) (RLL sil3_a_im) (RL sil3_b_ex) (RL sil3_b_im) u = Some y /\
+            nsq y <= nsq u.
+Proof. exact (A_stable_sil3 z u dt). Qed.
 
 Local Close Scope R_scope.
 
@@ -232,6 +281,9 @@ Proof. exact (tableau_validated a_ex_rows a_im_rows n_b_ex n_b_im). Qed.
 Example C06_hyps_satisfiable :
   (forall x : Cplx, vadd x vzero = x) /\ (forall c : R, vscal c (vzero : Cplx) = vzero) /\
   (forall c : R, nz c = false -> c = 0%R) /\ (forall x : Cplx, vscal 0%R x = vzero) /\
+  ModuleC ROps CVOps /\
+  (forall (x : Cplx) (eta : R),
+     Ginvz (0, 1)%R x eta = vadd x (vscal eta (Gz (0, 1)%R (Ginvz (0, 1)%R x eta)))) /\
   (forall (z u : Cplx) (eta : R), (0 <= eta)%R -> (fst z <= 0)%R ->
      Ginvz z (vadd u (vscal (- eta)%R (Gz z u))) eta = u) /\
   NonDec (map Q2R rk4_alphas) /\
@@ -246,6 +298,8 @@ Proof.
   - intros c H. unfold nz in H. apply Bool.negb_false_iff in H. cbn in H. unfold Reqb in H.
     destruct (Req_EM_T c 0); [assumption|discriminate].
   - intros [a b]. cbn. f_equal; ring.
+  - exact Cplx_module.
+  - exact Ginvz_solves_imag.
   - intros z u eta He Hx. apply Ginvz_inverse.
     pose proof (Dz_ge_1 z eta He Hx). lra.
   - apply nondec_Q2R, rk4_alphas_nondecreasing.
@@ -267,12 +321,16 @@ Print Assumptions C06_rk4_near_carpenter_kennedy.
 Print Assumptions C06_linear_taylor_series.
 Print Assumptions C06_leapfrog_second_order_series.
 Print Assumptions C06_imex_is_ark.
-Print Assumptions C06_stepfn_is_ark_linear_series_partial.
+Print Assumptions C06_lowstorage_is_ark.
+Print Assumptions C06_direct_schemes_are_ark.
+Print Assumptions C06_imex_reduces_to_explicit.
+Print Assumptions C06_imex_reduces_to_implicit.
 Print Assumptions C06_reduces_to_explicit.
 Print Assumptions C06_reduces_to_implicit.
 Print Assumptions C06_A_stable_backward_euler.
 Print Assumptions C06_A_stable_cn_lowstorage.
 Print Assumptions C06_A_stable_cn_rk2.
+Print Assumptions C06_A_stable_sil3.
 Print Assumptions C06_A_stable_leapfrog.
 Print Assumptions C06_A_stable_leapfrog_default.
 Print Assumptions C06_lengths_validated.
